@@ -61,6 +61,7 @@ from .._common import (
     decompress as _decompress_with_encoding,
 )
 from .._unauthorized import AuthUnavailableError, classify_auth_failure
+from ._errors import _RpcBadRequest, _RpcContentTooLarge
 
 _logger = logging.getLogger("vgi_rpc.http")
 
@@ -124,7 +125,7 @@ class _MaxRequestBytesMiddleware:
 
     def _raise_too_large(self, size: int) -> NoReturn:
         """Raise Falcon's standardized 413 response."""
-        raise falcon.HTTPContentTooLarge(
+        raise _RpcContentTooLarge(
             title="Request body exceeds max_request_bytes",
             description=(
                 f"Request body of at least {size} bytes exceeds the server's advertised "
@@ -551,7 +552,7 @@ class _CompressionMiddleware:
             # and is exactly what the client sent.
             _current_request_batch.set(decompressed)
         except DecompressionLimitExceeded as exc:
-            raise falcon.HTTPContentTooLarge(
+            raise _RpcContentTooLarge(
                 title="Request body exceeds max_request_bytes after decompression",
                 description=(
                     f"Decompressed {req_enc.value} request body exceeds the server's advertised "
@@ -559,7 +560,7 @@ class _CompressionMiddleware:
                 ),
             ) from exc
         except Exception as exc:
-            raise falcon.HTTPBadRequest(
+            raise _RpcBadRequest(
                 title="Decompression Error",
                 description=f"Failed to decompress {req_enc.value} request body: {exc}",
             ) from exc
